@@ -250,6 +250,15 @@ func selTables(rules []string) map[string]map[string]string {
 	if has(rules, "sync") {
 		t["sync"] = selSync
 	}
+	if has(rules, "pool") {
+		// sync.Pool only (with or without "sync"): its hit/miss behaviour
+		// depends on the P a goroutine happens to run on and on GC timing
+		m := map[string]string{"Pool": "Pool"}
+		for k, v := range t["sync"] {
+			m[k] = v
+		}
+		t["sync"] = m
+	}
 	if has(rules, "fs") {
 		t["os"] = selOS
 		t["path/filepath"] = selFilepath
@@ -432,6 +441,7 @@ func isRecv(e ast.Expr) (*ast.UnaryExpr, bool) {
 }
 
 func (fr *fileRewriter) run() {
+	defer fr.fnYield()
 	doChan := has(fr.rules, "chan")
 	doSel := has(fr.rules, "select")
 	doGo := has(fr.rules, "go")
@@ -532,6 +542,35 @@ func (fr *fileRewriter) run() {
 		}
 		return true
 	})
+}
+
+// fnYield implements the rule "fnyield" (every function of the file) and
+// "fnyield:<prefix>" (functions and methods whose name starts with <prefix>):
+// a scheduling point at function entry. It gives the scheduler a say between
+// a caller's unsynchronised check and the call it then makes (lazy
+// initialisation, check-then-act), which the synchronisation-only yield set
+// cannot interleave.
+func (fr *fileRewriter) fnYield() {
+	for _, r := range fr.rules {
+		if r != "fnyield" && !strings.HasPrefix(r, "fnyield:") {
+			continue
+		}
+		prefix := strings.TrimPrefix(strings.TrimPrefix(r, "fnyield"), ":")
+		for _, d := range fr.f.Decls {
+			fd, ok := d.(*ast.FuncDecl)
+			if !ok || fd.Body == nil || fd.Name.Name == "init" || !strings.HasPrefix(fd.Name.Name, prefix) {
+				continue
+			}
+			switch fd.Name.Name {
+			case "String", "Error", "Len", "Less", "Swap":
+				continue
+			}
+			y := &ast.ExprStmt{X: call(simSel("Yield"))}
+			fd.Body.List = append([]ast.Stmt{y}, fd.Body.List...)
+			fr.changed, fr.needSim = true, true
+			fr.stat("fnyield")
+		}
+	}
 }
 
 func isSimSwitch(sw *ast.SwitchStmt) bool {
